@@ -650,6 +650,22 @@ def _variant_field(t):
     return None
 
 
+def _benign_guard(cond):
+    """guards that belong to the validation itself: the iteration, the match on the operation, sign tests of amounts"""
+    if not isinstance(cond, tuple) or not cond:
+        return True
+    if cond[0] == "discr":
+        s = show(cond)
+        return "next(" in s or "operation" in s
+    if cond[0] == "cmp":
+        return _is_zero(cond[2]) or _is_zero(cond[3])
+    if cond[0] == "call" and parse_callee(cond[1])[2] in ("is_zero", "is_sign_negative", "is_sign_positive"):
+        return True
+    if cond[0] in ("not", "un") and isinstance(cond[-1], tuple):
+        return _benign_guard(cond[-1])
+    return False
+
+
 def validator_table(F, rep):
     cands = [b for b in F.bodies.values() if b.id.endswith("validation::validate") and b.kind == "fn"]
     if len(cands) != 1:
@@ -681,6 +697,37 @@ def validator_table(F, rep):
                 vf = _variant_field(conv(subj))
                 if vf and vf[1]:
                     got.setdefault(vf, set()).update(classes)
+    # "exactly when": nothing else may stand between a line and its field checks. Every guard on the way to an error push —
+    # in the helper and at each call site up to the validator — must be the loop, the variant switch or a sign test; a check
+    # that is only reached when, say, the ticker was bought before lets a malformed first SELL through (seeded change C15-s3)
+    from roles import guards_of
+    extra = {}
+    for ex in rg.expansions:
+        hb, ht = ex["body"], ex["tb"]
+        for pi, pt in _error_pushes(F, hb):
+            subjects = {_variant_field(ex["conv"](s)) for s, _ in _guards(hb, ht, pi)}
+            subjects.discard(None)
+            if not subjects:
+                continue
+            chain = [(hb, ht, pi)]
+            e2 = ex
+            while e2.get("via") is not None:
+                via = e2["via"]
+                pex = via["ex"]
+                chain.append((pex["body"], pex["tb"], via["bb"]))
+                e2 = pex
+            for cb, ctb, cbb in chain:
+                for cond, val, where in guards_of(cb, ctb, cbb):
+                    if _benign_guard(cond):
+                        continue
+                    for vf in subjects:
+                        extra.setdefault(vf, set()).add(show(cond)[:80])
+    for vf in sorted(extra):
+        rep.ob("R5", f"validate:{vf[0]}.{vf[1]}:unconditional", False,
+               f"the check of {vf[0]}.{vf[1]} is only reached under {sorted(extra[vf])[:2]}: lines for which that does not hold are not validated",
+               v.loc(), key=f"R5:validate:{vf[0]}.{vf[1]}:conditional")
+    rep.ob("R5", "validate:checks-unconditional", not extra, "every field check is reached for every line of its kind" if not extra else
+           f"{len(extra)} field checks sit behind an unrelated condition", v.loc(), key="R5:validate:checks-unconditional")
     rep.count("validator_table_entries", len(got))
     for key in sorted(set(EXPECTED_VALIDATOR) | set(got)):
         exp = EXPECTED_VALIDATOR.get(key, set())
